@@ -68,6 +68,11 @@ type Config struct {
 	// operation with the given errno name.
 	FaultOpIndex int    `json:"fault_op_index,omitempty"` // 1-based; 0 = none
 	FaultErrno   string `json:"fault_errno,omitempty"`
+	// DenyCreate: a directory the process may not add entries to (a checkout
+	// owned by somebody else, a read-only bind mount with writable files):
+	// every operation that would create a NEW directory entry fails with
+	// EACCES; existing files can still be opened, written and truncated.
+	DenyCreate bool `json:"deny_create,omitempty"`
 	// Out is where Exit/Flush writes the world record (process worlds).
 	Out string `json:"out,omitempty"`
 }
